@@ -23,6 +23,7 @@ STMT = {
     ('dbg_bind',): 'if __debug__: zq = emit("dbgbind")', ('assert_bind',): 'assert (zq := emit("assertbind"))',
     ('use_zq',): 'try: emit(("zq", zq))\nexcept NameError: emit("zq-unbound")',
     ('nl_zq',): '@(lambda f: f())\ndef inner():\n    nonlocal zq\n    zq = "set-by-inner"\n    emit("inner-ran")',
+    ('dbg_global',): 'if __debug__: global zq', ('set_zq',): 'zq = "set-in-block"',
     ('annval',): 'av: int = emit("annval")', ('annnoval',): 'an: int',
     ('raise0',): 'raise ValueError()', ('raiseargs',): 'raise ValueError("a")', ('raisefrom',): 'raise ValueError() from KeyError()',
     ('raiseuser',): 'raise UserExc()', ('classobj',): 'class Inner(object): emit("inner")', ('other',): 'emit("other")', ('other2',): 'emit("other2")',
@@ -42,11 +43,11 @@ def wrap(ctx, body):
     if ctx in ('module', 'module_top'):
         return body, None
     if ctx == 'function':
-        return 'def fn():\n%s\ntry: emit(("ret", fn()))%s' % (b1, GUARD), ('func', 'fn')
+        return 'def fn():\n%s\nemit(("fndoc", fn.__doc__))\ntry: emit(("ret", fn()))%s' % (b1, GUARD), ('func', 'fn')
     if ctx == 'function_if':
         return 'def fn():\n    if xflag:\n%s\n    emit("after")\ntry: emit(("ret", fn()))%s' % (b2, GUARD), ('func-if', 'fn')
     if ctx == 'class':
-        return 'try:\n    class K:\n%s\n    emit(("cls", sorted(k for k in vars(K) if not k.startswith("__"))))%s' % (b2, GUARD), ('class', 'K')
+        return 'try:\n    class K:\n%s\n    emit(("cls", sorted(k for k in vars(K) if not k.startswith("__")), K.__doc__))%s' % (b2, GUARD), ('class', 'K')
     if ctx == 'dataclass':
         return 'import dataclasses\ntry:\n    @dataclasses.dataclass\n    class K:\n%s\n    emit(("fields", [f.name for f in dataclasses.fields(K)]))%s' % (b2, GUARD), ('class', 'K')
     if ctx == 'dataclass_if':
@@ -65,6 +66,15 @@ def wrap(ctx, body):
         return 'import typing\ntry:\n    class K(typing.TypedDict):\n%s\n    emit(("keys", sorted(K.__annotations__)))%s' % (b2, GUARD), ('class', 'K')
     if ctx == 'namedtuple':
         return 'import typing\ntry:\n    class K(typing.NamedTuple):\n%s\n    emit(("fields", list(K._fields)))%s' % (b2, GUARD), ('class', 'K')
+    if ctx == 'dataclass_after_inner':
+        return ('import dataclasses\ntry:\n    @dataclasses.dataclass\n    class K:\n        class Nested:\n            inner_attribute: int = 0\n%s\n'
+                '    emit(("fields", [f.name for f in dataclasses.fields(K)]))%s' % (b2, GUARD)), ('class-skip1', 'K')
+    if ctx == 'namedtuple_after_inner':
+        return ('import typing\ntry:\n    class K(typing.NamedTuple):\n        class Nested:\n            inner_attribute: int = 0\n%s\n'
+                '    emit(("fields", list(K._fields)))%s' % (b2, GUARD)), ('class-skip1', 'K')
+    if ctx == 'class_after_dataclass':
+        return ('import dataclasses\ntry:\n    class K:\n        @dataclasses.dataclass\n        class Nested:\n            inner_attribute: int = 0\n%s\n'
+                '    emit(("cls", sorted(k for k in K.__dict__ if not k.startswith("__")), [f.name for f in dataclasses.fields(K.Nested)]))%s' % (b2, GUARD)), ('class-skip1', 'K')
     if ctx == 'if':
         return 'try:\n    if xflag:\n%s%s' % (b2, GUARD), ('try-first', 'body')
     if ctx == 'else':
@@ -96,7 +106,7 @@ def concretize(ctx, env, blk, doc_use='load'):
     pre = 'class UserExc(Exception): pass\nxflag = True\nzq = "global-zq"\n'
     if env.get('shadow'):
         pre += 'def ValueError():\n    return KeyError("made")\n'
-    post = ''
+    post = 'emit(("gzq", zq))\n'
     if env.get('usesDoc'):
         post += DOC_USE[doc_use] + '\n'
     if env.get('tainted'):
@@ -125,6 +135,8 @@ def locate(tree, ctx, path, npre, nblk_in, npost):
             if kind == 'func':
                 return n.body
             return n.body[0].body
+        if kind == 'class-skip1' and isinstance(n, ast.ClassDef) and n.name == name:
+            return n.body[1:]
         if kind in ('class', 'class-if') and isinstance(n, ast.ClassDef) and n.name == name:
             if kind == 'class':
                 return n.body
@@ -198,6 +210,10 @@ def classify(st):
     if (isinstance(st, ast.If) and _dbg(st.test) and not st.orelse and len(st.body) == 1 and isinstance(st.body[0], ast.Assign)
             and ast.dump(st.body[0].targets[0]) == ast.dump(ast.Name(id='zq', ctx=ast.Store())) and len(st.body[0].targets) == 1 and _is_emit(st.body[0].value, 'dbgbind')):
         return ['dbg_bind']
+    if isinstance(st, ast.If) and ast.dump(st) == ast.dump(ast.parse(STMT[('dbg_global',)]).body[0]):
+        return ['dbg_global']
+    if isinstance(st, ast.Assign) and ast.dump(st) == ast.dump(ast.parse(STMT[('set_zq',)]).body[0]):
+        return ['set_zq']
     if isinstance(st, ast.Try) and ast.dump(st) == ast.dump(ast.parse(STMT[('use_zq',)]).body[0]):
         return ['use_zq']
     if isinstance(st, ast.FunctionDef) and st.name == 'inner' and ast.dump(st) == ast.dump(ast.parse(STMT[('nl_zq',)]).body[0]):
@@ -310,7 +326,7 @@ def observe(job):
     rec['_src'], rec['_out'] = src, out
     try:
         t = ast.parse(out)
-        npost = (DOC_USE_N[doc_use] if env.get('usesDoc') else 0) + (1 if env.get('tainted') else 0)
+        npost = 1 + (DOC_USE_N[doc_use] if env.get('usesDoc') else 0) + (1 if env.get('tainted') else 0)
         npre_tail[0] = 1 if env.get('shadow') else 0
         stmts = locate(t, ctx, path, npre, nblk, npost)
         rec['out_blk'] = [classify(s) for s in stmts]
